@@ -84,7 +84,7 @@ class Projection:
             if e["t"] >= self.t_stop:
                 break
             ev = e["ev"]
-            if ev == "cluster_event" and e.get("op") == "add_partitions":
+            if ev == "cluster_event" and e.get("op") in ("add_partitions", "create_topic"):
                 # a metadata change reaches the members with their next metadata refresh: the environment's action
                 # lasts until then (the refresh makes the leader ask for a rejoin - not a step of the quiet model)
                 age = max([c.get("metadata_max_age_ms", 2000) for c in self.sc["consumers"]] or [2000]) / 1000.0
